@@ -143,6 +143,13 @@ struct CaseScope {
     explicit CaseScope(std::function<json()> f);
     ~CaseScope();
 };
+// Tight enumeration loops point this at a function returning the single element
+// being executed, so that an abort inside the loop still yields a minimal case.
+std::function<json()> & death_refine();
+struct RefineScope {
+    explicit RefineScope(std::function<json()> f) { death_refine() = std::move(f); }
+    ~RefineScope() { death_refine() = nullptr; }
+};
 [[noreturn]] void fail_exit(const json & c, const std::string & msg);
 [[noreturn]] void infra_exit(const std::string & msg);
 
